@@ -43,8 +43,9 @@ def direct_history(draw):
 @st.composite
 def large_history(draw):
     """Candidate lists and caps beyond 10^4 (the 3MR-only clamp must not leak into other heuristics)."""
-    n = draw(st.integers(10_001, 13_000))
-    steps = draw(st.lists(st.one_of(st.integers(9_990, 10_010), st.integers(10_001, n + 3), st.integers(1, n + 3)),
+    n = draw(st.one_of(st.integers(10_001, 13_000), st.integers(10_001, 13_000), st.integers(33_000, 70_000)))   # also beyond the default cap 2^15
+    steps = draw(st.lists(st.one_of(st.integers(9_990, 10_010), st.integers(10_001, n + 3), st.integers(1, n + 3),
+                                    st.sampled_from([2**15 - 1, 2**15, 2**15 + 1, 2**16])),
                           min_size=2, max_size=4))
     return {'mode': 'direct', 'cands_gen': n, 'steps': [['d', c] for c in steps]}
 
